@@ -71,11 +71,45 @@ pub fn probe_r8() -> SimCampaign {
     c
 }
 
+/// "never to another client": connections end (DISCONNECT, protocol violation, link failure)
+/// with further packets pipelined behind the closing one, next to well-behaved requesters
+pub fn churn_campaign() -> SimCampaign {
+    let mut c = main_campaign();
+    c.name = "acks_churn";
+    c.gen.min_clients = 3;
+    c.gen.max_clients = 5;
+    c.gen.w_disconnect = 4;
+    c.gen.w_droplink = 2;
+    c.gen.w_reconnect = 8;
+    c.gen.w_raw = 5;
+    c.gen.w_burst = 1;
+    c.gen.p_unnotified = 50;
+    c.gen.p_persistent = 30;
+    // clients 0 and 1 never send a packet out of place (they do disconnect, fail and resume);
+    // the ack and delivery clauses are asserted on them only: what a client loses by its own
+    // protocol violation (e.g. the in-flight record a wrong PUBACK id pops) is not C06's business
+    c.flags.witnesses = Some(vec![0, 1]);
+    c.shape = Some(|mut h: Hist| {
+        h.ops.retain(|op| !matches!(op, Op::Raw { c, .. } | Op::Zombie { c, .. } if *c < 2));
+        h
+    });
+    c.quick = 8000;
+    c.thorough = 160000;
+    c.nontrivial = |s, h| {
+        let ended = h.ops.iter().filter(|o| matches!(o, Op::Disconnect { .. } | Op::DropLink { .. })).count() as u64;
+        if s.router_closed + ended == 0 || s.acks_received == 0 {
+            return None;
+        }
+        Some(format!("closed={} ended={} qos2={}", s.router_closed.min(3), ended.min(3), s.qos2_in_completed > 0))
+    };
+    c
+}
+
 pub fn plan(_tier: Tier) -> Plan {
     Plan {
-        campaigns: vec![Box::new(main_campaign()), Box::new(probe_r8())],
+        campaigns: vec![Box::new(main_campaign()), Box::new(churn_campaign()), Box::new(probe_r8())],
         enumerators: vec![],
-        rule: "Histories biased to request packets (QoS 1/2 publishes incl. bursts, PUBREL in publish order, SUBSCRIBE 1-3 filters, UNSUBSCRIBE, PINGREQ, several packets per notification) from 2-4 clients against the real router. Oracle: per client the sequence of DeviceAck notifications equals the model's owed-ack list (kind, packet id, SUBACK codes, request order) as a prefix at every drain and completely at every idle point; QoS 2 publishes enter the acceptance log (and the delivery oracle of C01) only at their release. Non-trivial: >=1 request processed while its connection was paused as busy or inflight-full and >=1 QoS 2 publish flow completed (PUBCOMP received); distinct by history hash.".into(),
+        rule: "Histories biased to request packets (QoS 1/2 publishes incl. bursts, PUBREL in publish order, SUBSCRIBE 1-3 filters, UNSUBSCRIBE, PINGREQ, several packets per notification) from 2-4 clients against the real router. Oracle: per client the sequence of DeviceAck notifications equals the model's owed-ack list (kind, packet id, SUBACK codes, request order) as a prefix at every drain and completely at every idle point; QoS 2 publishes enter the acceptance log (and the delivery oracle of C01) only at their release. Second campaign (acks_churn): clients 0 and 1 never send a packet out of place but disconnect, fail and resume; the others also send packets out of place; half of all packets are pipelined behind an earlier one without a notification of their own, so closing packets (DISCONNECT, violating packet) have requests queued behind them: the same ack and delivery clauses on clients 0 and 1 (an ack or forward of another connection's packet shows as unsolicited / foreign). Non-trivial: >=1 request processed while its connection was paused as busy or inflight-full and >=1 QoS 2 publish flow completed (PUBCOMP received); distinct by history hash.".into(),
         assumptions: vec![
             "QoS 2 releases are issued in publish order (as the quantifier states)".into(),
             "Region R8 (UNSUBSCRIBE of several/unknown/resumed filters) excluded by construction; probed separately".into(),
